@@ -1107,7 +1107,9 @@ def _sf_parses_int(ex, ctx, st, e):
     from . import builtins_model as bm
     s_ = ex.eval(ctx, st, e.args[0])
     b_ = ex.eval(ctx, st, e.args[1])
-    return mk_bool(bm.is_base_n(to_sort(ex, ctx, st, s_, "str"), to_sort(ex, ctx, st, b_, "int")))
+    ts_, tb_ = to_sort(ex, ctx, st, s_, "str"), to_sort(ex, ctx, st, b_, "int")
+    ctx.assume(z3.Implies(bm.is_base_n(ts_, tb_), z3.Length(ts_) > 0), "axiom:parse-nonempty")
+    return mk_bool(bm.is_base_n(ts_, tb_))
 
 
 def _sf_int_val(ex, ctx, st, e):
@@ -1120,6 +1122,7 @@ def _sf_int_val(ex, ctx, st, e):
 def _sf_parses_float(ex, ctx, st, e):
     from . import builtins_model as bm
     s_ = to_sort(ex, ctx, st, ex.eval(ctx, st, e.args[0]), "str")
+    ctx.assume(z3.Implies(bm.is_float_str(s_), z3.Length(s_) > 0), "axiom:parse-nonempty")
     return mk_bool(z3.And(bm.is_float_str(s_), bm.is_finite_str(s_)))
 
 
